@@ -198,148 +198,223 @@ def r2(ctx):
 
 
 def r4(ctx):
+    """R01.4 on E6 summaries of Network::backward / Feedback::backward: the layers are walked last to first; the layer at index
+    idx gets backward(most recent gradient, activated[idx], pre[idx]) (max-pool: the recorded indices at idx; feedback block: the
+    most recently recorded, not yet consumed, block record); the three results go to the gradient / weight / bias lists."""
+    from .. import e6
     c = ctx.crate
-    for fpath, act, pre in (("network::Network::backward", "activated", "preactivated"), ("feedback::Feedback::backward", "activated", "unactivated")):
+    layer_adt = c.adts["network::Layer"]
+    payload_ty = {v["name"]: v["fields"][0]["ty"] for v in layer_adt["variants"]}
+    LAYERS = ("field", ("p", "self"), "layers")
+    LEN = ("call", "std::vec::Vec::<T, A>::len", (LAYERS,))
+    for fpath, short_name in (("network::Network::backward", "Network"), ("feedback::Feedback::backward", "Feedback")):
         fn = ctx.fn(fpath)
-        short_name = fpath.split("::")[1]
-        trav = None
-        for x in walk(fn["body"], into_closures=False):
-            t_ = e4.traversal(x)
-            if t_ is not None and t_["field"] == "layers" and any(cal.endswith("::backward") for _, cal in calls(t_["body"])):
-                trav = t_
-        if trav is None:
-            raise Unestablished("no traversal of self.layers calling the layers' backward in %s" % fpath, c.loc(fn))
-        x, chain = trav["node"], trav["methods"]
-        ctx.check("R01.4", short_name + ":reverse-walk", chain == ["iter", "rev", "enumerate"], "layer-walk:" + ".".join(chain), c.loc(fn, x), "layers.iter().rev().enumerate()")
-        cl = {"body": trav["body"], "params": [trav["pat"]]}
-        pb = pat_binds(cl["params"][0])
-        ih, lh = pb[0][1], pb[1][1]
-        body = top_stmts_of(cl["body"])
-        from ..hir import let_table, cpretty, resolve
-        TT = let_table(fn["body"])
-        from .. import arms as _arms
-        env = _arms.full_env(c, fn, {ih: Rat.atom("i")})
-        lets = {}
-        for s in body:
-            if s.get("k") == "let" and s["pat"].get("k") == "bind" and s["init"] is not None:
-                lets[s["pat"]["name"]] = (s["pat"]["hid"], s["init"])
-        N = e1.Norm(c, env)
-        ok_idx = "idx" in lets and N.norm(lets["idx"][1]) == Rat.atom("len(self.layers)") - Rat.atom("i") - 1
-        ctx.check("R01.4", short_name + ":idx", ok_idx, "idx-formula:" + (short(pretty(lets["idx"][1]), 60) if "idx" in lets else "?"), c.loc(fn, cl), "idx = len - i - 1")
-        idxh = lets.get("idx", (None,))[0]
+        where = c.loc(fn)
+        E = e6.Exec(c, fn)
+        live = [p for p in E.run_fn() if p.exit is None or p.exit[0] == "return"]
+        if len(live) != 1:
+            raise Unestablished("%s: expected one non-panicking path, found %d" % (fpath, len(live)), where)
+        P = live[0]
+        if short_name == "Network":
+            ACT, PRE, MAXP, FBS = ("p", "activated"), ("p", "preactivated"), ("p", "maxpools"), "feedbacks"
+        else:
+            ACT = ("call", "tensor::Tensor::unnested", (("idx", ("p", "inbetween"), ("lit", "1")),))
+            PRE = ("call", "tensor::Tensor::unnested", (("idx", ("p", "inbetween"), ("lit", "0")),))
+            MAXP, FBS = None, None
+        # the walk: the loop (or for_each closure) whose body calls the layers' backward
+        walk_l = None
+        for e in P.eff:
+            if e[0] == "loop" and e6.find_terms(tuple((q.eff, q.val) for q in E.loop_summaries[e[1]]["paths"]), lambda t: t[0] == "call" and t[1].endswith("::backward") and t[1].rsplit("::", 1)[0] in payload_ty.values()):
+                walk_l = e[1]
+        if walk_l is None:
+            raise Unestablished("no traversal of self.layers calling the layers' backward in %s" % fpath, where)
+        L = E.loop_summaries[walk_l]
+        lnode = L["node"]
+        wloc = c.loc(fn, lnode)
+        if L.get("kind") == "closure":
+            src = L.get("recv")
+            form_ok = L.get("callee", "").endswith("::for_each")
+        else:
+            src = L.get("iter")
+            form_ok = True
+        sw = e6.seq_walk(src, walk_l, LAYERS)
+        LAYER = e6.walk_element([q for q in L["paths"]], sw["rev"]) if sw and sw["rev"] else None
+        IDX = None
+        want_idx = sw["pos"]["rev"] if sw else None
+        if want_idx is None:
+            LAYER = None
+        ctx.check("R01.4", short_name + ":reverse-walk", form_ok and LAYER is not None, "layer-walk:" + short(e6.show(src, 3), 60), wloc, "layers.iter().rev().enumerate()  |  (0..layers.len()).rev()",
+                  "%s walks %s; back-propagation must visit the layers last to first, each once" % (fpath, e6.show(src, 3)[:120]))
+        if LAYER is None:
+            continue
+        # roles of the lists: the result names them
+        val = P.val if P.exit is None else P.exit[1]
+        comps = val[1] if isinstance(val, tuple) and val and val[0] == "tup" else ()
+        if short_name == "Network":
+            wg_n, bg_n = (e6.root_name(comps[0]), e6.root_name(comps[1])) if len(comps) == 2 else (None, None)
+            g_n = None
+        else:
+            wg_n = bg_n = g_n = None
+            if len(comps) == 3:
+                a0 = e6.is_call(comps[0], "unwrap", 1) or e6.is_call(comps[0], "expect")
+                l0 = e6.is_call(a0[0], "last", 1) if a0 else None
+                g_n = e6.root_name(l0[0]) if l0 else None
+                n1 = e6.is_call(comps[1], "nested", 1)
+                wg_n = e6.root_name(n1[0]) if n1 else None
+                n2 = comps[2][2][0] if isinstance(comps[2], tuple) and comps[2][0] == "var" and comps[2][1] == "Option::Some" and comps[2][2] else None
+                n2 = e6.is_call(n2, "nestedoptional", 1) if n2 is not None else None
+                bg_n = e6.root_name(n2[0]) if n2 else None
+        res = {}
 
-        def is_indexed(n, arr):
-            n = strip(n)
-            return n.get("k") == "index" and strip(n["b"]).get("k") == "local" and strip(n["b"])["name"] == arr and e4.local_hid(n["i"]) == idxh
-        ok_in = "input" in lets and is_indexed(lets["input"][1], act)
-        ok_out = "output" in lets and is_indexed(lets["output"][1], pre)
-        ctx.check("R01.4", short_name + ":input-is-activated[idx]", ok_in, "layer-input-source:" + (short(pretty(lets["input"][1]), 50) if "input" in lets else "?"), c.loc(fn, cl),
-                  "input = %s[idx]" % act, "the tensor handed to backward as the layer's input is %s" % (pretty(lets["input"][1]) if "input" in lets else "?"))
-        ctx.check("R01.4", short_name + ":output-is-pre[idx]", ok_out, "layer-output-source:" + (short(pretty(lets["output"][1]), 50) if "output" in lets else "?"), c.loc(fn, cl),
-                  "output = %s[idx]" % pre)
-        inh, outh = lets.get("input", (None,))[0], lets.get("output", (None,))[0]
-        ms = [s for s in walk(cl["body"]) if s.get("k") == "match" and e4.local_hid(s["scrut"]) == lh]
-        if len(ms) != 1:
-            raise Unestablished("%s: no match on the layer" % fpath, c.loc(fn, cl))
-        n_arms = 0
-        for arm in ms[0]["arms"]:
-            vp, binds = e4.arm_variant(arm)
+        def note(key, ok, detail):
+            res.setdefault(key, []).append((ok, detail))
+        routing = []
+        for p in L["paths"]:
+            if p.exit is not None:
+                continue
+            vs = e6.variant_of(p)
+            vp = vs.get(LAYER)
+            if vp is None:
+                note("unclassified", False, "a path of the walk does not dispatch on the layer: %s" % "; ".join(e6.show(t, 2) for t, _ in p.pc)[:120])
+                continue
             kind = vp.split("::")[-1]
-            bw = [y for y in walk(arm["body"]) if y.get("k") == "mcall" and y["name"] == "backward"]
+            bw = e6.find_terms(tuple(p.eff), lambda t: t[0] == "call" and t[1] == payload_ty[kind] + "::backward")
+            B = bw[0] if bw else None
+            if B is None or any(b_ != B for b_ in bw):
+                note(kind, False, "no single %s::backward call" % payload_ty[kind])
+                continue
+            args = B[2]
+            okrecv = args[0] == ("payload", LAYER, vp, 0)
+            g = (e6.is_call(args[1], "unwrap", 1) or e6.is_call(args[1], "expect")) if len(args) > 1 else None
+            gl = e6.is_call(g[0], "last", 1) if g else None
+            gname = e6.root_name(gl[0]) if gl else None
+            okg = gname is not None and (g_n is None or gname == g_n)
+            if g_n is None and gname is not None:
+                g_n = gname
             if kind in ("Dense", "Convolution", "Deconvolution"):
-                n_arms += 1
-                def stands_for(node, arr):
-                    r_ = resolve(node, TT)
-                    if r_.get("k") != "index" or strip(r_["b"]).get("k") != "local" or strip(r_["b"])["name"] != arr:
-                        return False
-                    try:
-                        env2 = dict(env)
-                        if idxh in TT:
-                            env2[idxh] = e1.Norm(c, env).norm(TT[idxh])
-                        return e1.Norm(c, env2).norm(r_["i"]) == Rat.atom("len(self.layers)") - Rat.atom("i") - 1
-                    except ValueError:
-                        return False
-                ok = (len(bw) == 1 and len(bw[0]["args"]) == 3 and "gradients.last()" in cpretty(bw[0]["args"][0], TT) and stands_for(bw[0]["args"][1], act)
-                      and stands_for(bw[0]["args"][2], pre) and binds and e4.local_hid(bw[0]["recv"]) == binds[0][1])
-                ctx.check("R01.4", "%s:%s-arguments" % (short_name, kind), ok, "backward-arguments:" + (short(pretty(bw[0]), 70) if bw else "none"), c.loc(fn, arm["body"]),
-                          "layer.backward(last gradient, input, output)", "the %s arm calls %s" % (kind, [short(pretty(y), 100) for y in bw]))
-            elif kind == "Maxpool" and bw:
-                n_arms += 1
-                ok = len(bw) == 1 and "gradients.last()" in cpretty(bw[0]["args"][0], TT) and any(is_indexed(z, "maxpools") for z in walk(arm["body"]))
-                ctx.check("R01.4", "%s:Maxpool-arguments" % short_name, ok, "maxpool-backward-arguments", c.loc(fn, arm["body"]), "layer.backward(last gradient, maxpools[idx])")
-        # result routing: let (gradient, wg, bg) = match ..; gradients.push(gradient); weight.push(wg); bias.push(bg)
-        dl = [s for s in body if s.get("k") == "let" and s["init"] is not None and strip(s["init"]) is ms[0]]
-        ok = False
-        if dl:
-            pb2 = pat_binds(dl[0]["pat"])
-            if len(pb2) == 3:
-                pushes = {}
-                for y in walk(cl["body"]):
-                    if y.get("k") == "mcall" and y["name"] == "push" and e4.local_hid(y["args"][0]) in [h for (_, h) in pb2]:
-                        pushes[strip(y["recv"])["name"]] = e4.local_hid(y["args"][0])
-                ok = (pushes.get("gradients") == pb2[0][1] and (pushes.get("weight_gradient", pushes.get("weight_gradients")) == pb2[1][1])
-                      and (pushes.get("bias_gradient", pushes.get("bias_gradients")) == pb2[2][1]))
-        ctx.check("R01.4", short_name + ":result-routing", ok, "result-components-routed-wrongly", c.loc(fn, cl), "(dX, dW, db) -> gradients / weight / bias lists")
-    ctx.floor("R01.4", 16, "two walks: idx, input, output, arms, routing")
+                oka = len(args) == 4 and isinstance(args[2], tuple) and args[2][0] == "idx" and args[2][1] == ACT and e6.lin(args[2][2]) == want_idx
+                okp = len(args) == 4 and isinstance(args[3], tuple) and args[3][0] == "idx" and args[3][1] == PRE and e6.lin(args[3][2]) == want_idx
+                note("input", oka, e6.show(args[2], 3)[:80] if len(args) > 2 else "?")
+                note("output", okp, e6.show(args[3], 3)[:80] if len(args) > 3 else "?")
+                note(kind, okrecv and okg and oka and okp, e6.show(B, 2)[:140])
+                want_push = [e6.mk_proj(B, 0), e6.mk_proj(B, 1), e6.mk_proj(B, 2)]
+            elif kind == "Maxpool":
+                okm = (len(args) == 3 and isinstance(args[2], tuple) and args[2][0] == "payload" and args[2][2] == "Option::Some" and isinstance(args[2][1], tuple)
+                       and args[2][1][0] == "idx" and args[2][1][1] == MAXP and e6.lin(args[2][1][2]) == want_idx)
+                note(kind, okrecv and okg and okm, e6.show(B, 2)[:140])
+                want_push = [B, None, ("var", "Option::None", ())]
+            else:
+                rec_ = (e6.is_call(args[2], "unwrap", 1) or e6.is_call(args[2], "expect")) if len(args) == 3 else None
+                pp = e6.is_call(rec_[0], "pop", 1) if rec_ else None
+                pops = [e for e in p.eff if e[0] == "mut" and e[1].endswith("::pop") and e[2] == ("local", FBS)]
+                others = [e for e in p.eff if e[0] in ("mut", "mutcall") and e6.root_name(e[4] if e[0] == "mut" and len(e) > 4 else None) == FBS and e not in pops]
+                okf = pp is not None and pp[0] == ("loopin", FBS, walk_l) and len(pops) == 1 and not others
+                note(kind, okrecv and okg and okf, e6.show(B, 2)[:140])
+                want_push = [e6.mk_proj(B, 0), e6.mk_proj(B, 1), e6.mk_proj(B, 2)]
+            got = [e6.pushes_to(p, n_) if n_ else None for n_ in (g_n, wg_n, bg_n)]
+            okr = all(gt is not None and len(gt) == 1 for gt in got)
+            if okr:
+                okr = e6.strip_upd(got[0][0]) == want_push[0] and (want_push[1] is None or got[1][0] == want_push[1]) and got[2][0] == want_push[2]
+            routing.append((okr, "%s: %s" % (kind, [e6.show(x[0], 2)[:50] if x else "?" for x in got])))
+        for kind in ("Dense", "Convolution", "Deconvolution") + (("Maxpool", "Feedback") if short_name == "Network" else ()):
+            r_ = res.get(kind, [])
+            ok = bool(r_) and all(x[0] for x in r_)
+            inst = "%s:%s-arguments" % (short_name, kind)
+            ctx.check("R01.4", inst, ok, "backward-arguments:" + short(next((x[1] for x in r_ if not x[0]), "none"), 70), wloc,
+                      "layer.backward(last gradient, input, output)" if kind in ("Dense", "Convolution", "Deconvolution") else
+                      ("layer.backward(last gradient, maxpools[idx])" if kind == "Maxpool" else "layer.backward(last gradient, feedbacks.pop())"),
+                      "the %s arm calls %s" % (kind, [x[1] for x in r_ if not x[0]][:2]))
+        r_in, r_out = res.get("input", []), res.get("output", [])
+        ctx.check("R01.4", short_name + ":input-is-activated[idx]", bool(r_in) and all(x[0] for x in r_in), "layer-input-source:" + short(next((x[1] for x in r_in if not x[0]), "?"), 50), wloc,
+                  "input = activated[idx]", "the tensor handed to backward as the layer's input is %s" % next((x[1] for x in r_in if not x[0]), "?"))
+        ctx.check("R01.4", short_name + ":output-is-pre[idx]", bool(r_out) and all(x[0] for x in r_out), "layer-output-source:" + short(next((x[1] for x in r_out if not x[0]), "?"), 50), wloc,
+                  "output = pre[idx]")
+        ctx.check("R01.4", short_name + ":idx", not res.get("unclassified"), "walk-paths:" + short(next((x[1] for x in res.get("unclassified", [])), ""), 60), wloc,
+                  "every step dispatches on the layer at idx = len - i - 1")
+        ctx.check("R01.4", short_name + ":result-routing", bool(routing) and all(x[0] for x in routing), "result-components-routed-wrongly:" + short(next((x[1] for x in routing if not x[0]), ""), 80), wloc,
+                  "(dX, dW, db) -> gradients / weight / bias lists")
+    ctx.floor("R01.4", 18, "two walks: walk form, idx, input, output, arms, routing")
 
 
 def r5(ctx):
+    """R01.5 on the E6 summary of Dense::backward: on every non-panicking path
+         delta = activation.backward(pre) (.) G * scale(loops)       (one hadamard, G = the upstream gradient, flattened iff 3-D)
+         result = (W^T . delta, delta (x) input, Some(delta) iff the layer has a bias)"""
+    from .. import e6
     c = ctx.crate
     fn = ctx.fn("dense::Dense::backward")
-    from ..hir import let_table, cpretty, resolve
-    T = let_table(fn["body"])
     pn = [pat_binds(p)[0][0] for p in fn["params"]]
-    ph = [pat_binds(p)[0][1] for p in fn["params"]]
     gname, iname, oname = pn[1], pn[2], pn[3]
-    gh, inh, outh = ph[1], ph[2], ph[3]
     where = c.loc(fn)
-    stmts = top_stmts_of(fn["body"])
-    # delta: the (mutable) local initialised with the activation derivative of the pre-activation parameter
-    dl = [s_ for s_ in walk(fn["body"]) if s_.get("k") == "let" and s_["pat"].get("k") == "bind" and s_["init"] is not None
-          and strip(s_["init"]).get("k") == "mcall" and strip(s_["init"])["callee"] == "activation::Function::backward"]
-    ok = len(dl) == 1 and e4.local_hid(resolve(strip(dl[0]["init"])["args"][0], T)) == outh
-    ctx.check("R01.5", "delta-from-activation-derivative-of-pre", ok, "delta-source:" + (short(pretty(dl[0]["init"]), 60) if dl else "?"), where, "delta = activation.backward(output)",
-              "delta is initialised as %s; it must be the activation derivative at the layer's pre-activation (3rd parameter)" % (pretty(dl[0]["init"]) if dl else "?"))
-    if not dl:
-        return
-    dh, dname = dl[0]["pat"]["hid"], dl[0]["pat"]["name"]
-    # the gradient may be re-bound (flattened) under the same or another name
-    g_ok = {gh}
-    for s_ in stmts:
-        if s_.get("k") == "let" and s_["pat"].get("k") == "bind" and s_["init"] is not None and strip(s_["init"]).get("k") == "match" and mentions_local(s_["init"], gh):
-            g_ok.add(s_["pat"]["hid"])
-    had = [x for x in walk(fn["body"]) if x.get("k") == "mcall" and x["callee"] == "tensor::Tensor::hadamard"]
-    ok = (len(had) == 1 and e4.local_hid(had[0]["recv"]) == dh and e4.local_hid(had[0]["args"][0]) in g_ok
-          and cpretty(had[0]["args"][1], T) == "self.scale(self.loops)")
-    ctx.check("R01.5", "delta-times-upstream-gradient", ok, "hadamard:" + (short(cpretty(had[0], T), 70) if had else "none"), where, "delta.hadamard(gradient, scale(loops))")
-    tail = strip(stmts[-1])
-    comps = [cpretty(x, T) for x in tail["xs"]] if tail.get("k") == "tup" else []
-    want_dx = "self.weights.transpose().dot(%s)" % dname
-    want_dw = "%s.product(%s)" % (dname, iname)
-    ctx.check("R01.5", "input-gradient-is-Wt-delta", len(comps) == 3 and comps[0] == want_dx, "input-gradient:" + (short(comps[0], 60) if comps else "?"), where, "dX = W^T . delta (first component)",
-              "the first returned component is `%s`; it must be %s" % (comps[0] if comps else "?", want_dx))
-    ctx.check("R01.5", "weight-gradient-is-delta-outer-input", len(comps) == 3 and comps[1] == want_dw, "weight-gradient:" + (short(comps[1], 60) if comps else "?"), where, "dW = delta.product(input) (second component)",
-              "the weight gradient is `%s`; weights are (outputs x inputs), so it must be %s" % (comps[1] if len(comps) > 1 else "?", want_dw))
-    # bias gradient: Some(delta) iff the layer has a bias
-    okb = False
-    if len(comps) == 3:
-        b = resolve(tail["xs"][2], T)
-        if b.get("k") == "local":
-            for s_ in stmts:
-                if s_.get("k") == "let" and s_["pat"].get("k") == "bind" and b.get("k") == "local" and s_["pat"]["hid"] == b["hid"]:
-                    b = strip(s_["init"])
-        if b.get("k") == "match" and cpretty(b["scrut"], T) == "self.bias":
-            arms_ = {e4.arm_variant(a_)[0].split("::")[-1]: cpretty(a_["body"], T) for a_ in b["arms"]}
-            okb = arms_.get("Some", "").endswith("Some(%s.clone())" % dname) and arms_.get("None", "").endswith("None")
-        elif b.get("k") == "if" and cpretty(b["c"], T) == "self.bias.is_some()" and b["el"] is not None:
-            okb = cpretty(b["th"], T).endswith("Some(%s.clone())" % dname) and cpretty(b["el"], T).endswith("None")
-        elif b.get("k") == "mcall" and b["name"] == "map" and cpretty(b["recv"], T) in ("self.bias.as_ref()", "self.bias"):
-            cl = strip(b["args"][0])
-            okb = cl.get("k") == "closure" and cpretty(cl["body"], T) == "%s.clone()" % dname
-    ctx.check("R01.5", "bias-gradient-is-delta", okb, "bias-gradient", where, "db = Some(delta) iff bias (third component)")
-    ctx.check("R01.5", "result-order", len(comps) == 3, "result-arity:%d" % len(comps), where, "(dX, dW, db)")
-    muts = [x for x in walk(fn["body"]) if x.get("k") == "mcall" and e4.local_hid(x["recv"]) == dh and (c.tya(x["recv"]) or "").startswith("&mut")]
-    ctx.check("R01.5", "delta-modified-once", len(muts) == 1, "delta-mutations:%d" % len(muts), where, "delta is modified only by the hadamard product")
+    E = e6.Exec(c, fn)
+    paths = [p for p in E.run_fn() if p.exit is None or p.exit[0] == "return"]
+    S = ("p", "self")
+
+    def uncow(t):
+        if isinstance(t, tuple):
+            if t and t[0] == "call" and t[1].startswith(("std::borrow::Cow", "alloc::borrow::Cow")) and t[1].rsplit("::", 1)[-1] in ("Borrowed", "Owned") and len(t[2]) == 1:
+                return uncow(t[2][0])
+            return tuple(uncow(x) for x in t)
+        return t
+    res = dict(delta=[], had=[], dx=[], dw=[], db=[], arity=[], once=[])
+    seen_shapes = set()
+    for p in paths:
+        val = uncow(p.val if p.exit is None else p.exit[1])
+        eff = [uncow(e) for e in p.eff if e[0] != "loop"]
+        vs = {}
+        for (t, pol) in p.pc:
+            if pol and isinstance(t, tuple) and t[0] == "is":
+                vs[t[1]] = t[2]
+        gshape = vs.get(("field", ("p", gname), "shape"), "?").split("::")[-1]
+        seen_shapes.add(gshape)
+        hasb = vs.get(("field", S, "bias"))
+        D0 = ("call", "activation::Function::backward", (("field", S, "activation"), ("p", oname)))
+        G = ("p", gname) if gshape == "Single" else ("call", "tensor::Tensor::flatten", (("p", gname),))
+        muts = [e for e in eff if e[0] in ("mut", "mutcall", "set", "push")]
+        res["once"].append(len(muts) == 1)
+        had = [e for e in muts if e[0] == "mut" and e[1] == "tensor::Tensor::hadamard"]
+        d0s = e6.find_terms(val, lambda t: t[0] == "call" and t[1] == "activation::Function::backward")
+        res["delta"].append((bool(d0s) and all(d == D0 for d in d0s), e6.show(d0s[0], 2) if d0s else "?"))
+        okh = len(had) == 1 and had[0][4] == D0 and len(had[0][3]) == 2 and had[0][3][0] == G and e6.show(had[0][3][1]) == "self.scale(self.loops)"
+        res["had"].append((okh, "%s.hadamard(%s)" % (e6.show(had[0][4], 2)[:40], ", ".join(e6.show(x, 2) for x in had[0][3])[:60]) if had else "none"))
+        if not had:
+            continue
+        D = ("upd", D0, had[0][1] + "@" + e6.show(had[0][2]), had[0][3])
+        comps = val[1] if isinstance(val, tuple) and val and val[0] == "tup" else ()
+        res["arity"].append(len(comps))
+        if len(comps) != 3:
+            continue
+        res["dx"].append((comps[0] == ("call", "tensor::Tensor::dot", (("call", "tensor::Tensor::transpose", (("field", S, "weights"),)), D)), e6.show(comps[0], 3)[:100]))
+        res["dw"].append((comps[1] == ("call", "tensor::Tensor::product", (D, ("p", iname))), e6.show(comps[1], 3)[:100]))
+        if hasb == "Option::Some":
+            okb = comps[2] == ("var", "Option::Some", (D,))
+        elif hasb == "Option::None" or any((not pol) and isinstance(t, tuple) and t[0] == "is" and t[1] == ("field", S, "bias") and t[2] == "Option::Some" for (t, pol) in p.pc) \
+                or any((not pol) and e6.is_call(t, "is_some", 1) == (("field", S, "bias"),) for (t, pol) in p.pc):
+            okb = comps[2] == ("var", "Option::None", ())
+        elif any(pol and e6.is_call(t, "is_some", 1) == (("field", S, "bias"),) for (t, pol) in p.pc):
+            okb = comps[2] == ("var", "Option::Some", (D,))
+        elif any(pol and e6.is_call(t, "is_none", 1) == (("field", S, "bias"),) for (t, pol) in p.pc):
+            okb = comps[2] == ("var", "Option::None", ())
+        else:
+            okb = False
+        res["db"].append((okb, e6.show(comps[2], 3)[:80]))
+
+    def allok(key):
+        return bool(res[key]) and all(x[0] for x in res[key])
+
+    def first_bad(key):
+        return next((x[1] for x in res[key] if not x[0]), "?")
+    ctx.check("R01.5", "delta-from-activation-derivative-of-pre", allok("delta"), "delta-source:" + short(first_bad("delta"), 60), where, "delta = activation.backward(output)",
+              "delta is initialised as %s; it must be the activation derivative at the layer's pre-activation (3rd parameter)" % first_bad("delta"))
+    ctx.check("R01.5", "delta-times-upstream-gradient", allok("had") and {"Single", "Triple"} <= seen_shapes, "hadamard:" + short(first_bad("had"), 70), where,
+              "delta.hadamard(gradient | gradient.flatten(), scale(loops))")
+    ctx.check("R01.5", "input-gradient-is-Wt-delta", allok("dx"), "input-gradient:" + short(first_bad("dx"), 60), where, "dX = W^T . delta (first component)",
+              "the first returned component is `%s`; it must be self.weights.transpose().dot(delta)" % first_bad("dx"))
+    ctx.check("R01.5", "weight-gradient-is-delta-outer-input", allok("dw"), "weight-gradient:" + short(first_bad("dw"), 60), where, "dW = delta.product(input) (second component)",
+              "the weight gradient is `%s`; weights are (outputs x inputs), so it must be delta.product(input)" % first_bad("dw"))
+    ctx.check("R01.5", "bias-gradient-is-delta", allok("db"), "bias-gradient", where, "db = Some(delta) iff bias (third component)")
+    ctx.check("R01.5", "result-order", bool(res["arity"]) and all(a == 3 for a in res["arity"]), "result-arity:%s" % res["arity"][:1], where, "(dX, dW, db)")
+    ctx.check("R01.5", "delta-modified-once", bool(res["once"]) and all(res["once"]), "delta-mutations", where, "delta is modified only by the hadamard product")
 
 
 def r6(ctx):
